@@ -147,7 +147,7 @@ prop('C02', level='other', units=[FE], jobs=['find_extrema'],
                  'consecutive half-waves (none skipped); (5) completeness at the ends: every half-wave whose sample window lies inside the '
                  'boundary has its extremum among the reported ones, except the single one the first_extrema rule removes at the front '
                  '(other kind first) or at the back (equal counts). All of this for first_extrema = "peak", "trough" and None (for None: '
-                 'at least 3 peaks and 2 troughs, no trimming). No IndexError / empty-argmax on any path. NOT proved: half-waves that '
+                 'at least 3 peaks and 2 troughs, no trimming); any other first_extrema value raises ValueError (C19). No IndexError / empty-argmax on any path. NOT proved: half-waves that '
                  'only partly overlap the boundary region are decided by the position of their extremum (covered by the block argument, '
                  'not stated as a clause), the filter itself. Bounded: find_extrema with the filter replaced by every enumerated sign pattern '
                  'x raw signals with ties, all boundary / pad / first_extrema values, plus the real filter on the corpus.')
